@@ -18,18 +18,19 @@
 //   fieldcheck                  -> ok            (the monitor judges the rows it has collected)
 //   eval <x> <c> <coeffs-hex>   -> xx            evaluate_polynomial
 //   split <secret-hex> <t> <n> <rng>  -> ok idx:value,idx:value,... | throw:... | timeout | crash:...
-//        rng = z (all draws 0) | k<v> (all draws v) | r<seed> (xorshift stream); runs in a child
-//        process with a CPU-time limit (a hang is reported as `timeout`); the shares are remembered
+//        rng = z (all draws 0) | k<v> (all draws v) | r<seed> (xorshift stream); runs on a watched
+//        worker thread with a CPU-time limit (a hang is reported as `timeout`); the shares are remembered
 //   combsel <t> <p,p,...>       -> combine() on the remembered shares at those positions (0-based)
 //   combine <t> <idx:value,...> -> ok secret-hex | throw:...     arbitrary share sets (`-` = none)
 #include "common/lineproto.hpp"
 
-#include <poll.h>
+#include <chrono>
+#include <condition_variable>
+#include <mutex>
+#include <pthread.h>
 #include <random>
-#include <signal.h>
-#include <sys/resource.h>
-#include <sys/types.h>
-#include <sys/wait.h>
+#include <thread>
+#include <time.h>
 #include <unistd.h>
 
 namespace verif_rng {
@@ -104,67 +105,75 @@ std::string do_combine(const std::vector<ShamirShare>& shares, std::uint8_t t) {
     return "ok " + verif::to_hex(secret);
 }
 
-// split in a child process with a deadline
+// split runs on a worker thread watched by the main thread.  A hang is recognised by the worker's
+// CPU time (robust on a loaded machine: a valid split needs milliseconds; the wall clock is only a
+// backstop).  A hung worker cannot be stopped, so the harness then prints `timeout` for the op and
+// re-executes itself, resuming after the lines already answered.
+struct SplitJob {
+    std::array<std::uint8_t, 32> secret{};
+    std::uint8_t t = 0, n = 0;
+    std::string rng;
+    std::string line;
+    std::mutex m;
+    std::condition_variable cv;
+    bool done = false;
+};
+
+bool g_hung = false;   // set by do_split when the worker was abandoned
+
 std::string do_split(const std::array<std::uint8_t, 32>& secret, std::uint8_t t, std::uint8_t n, const std::string& rng) {
-    // A hang is recognised by CPU time (robust on a loaded machine): the child may burn `cpu_s` seconds,
-    // a valid split needs a few milliseconds.  The wall-clock deadline is only a backstop.
-    static const long cpu_s = [] {
+    static const double cpu_s = [] {
         const char* e = std::getenv("VERIF_SPLIT_CPU_S");
-        return e ? std::atol(e) : 2L;
+        return e ? std::atof(e) : 2.0;
     }();
-    static const long deadline_ms = [] {
-        const char* e = std::getenv("VERIF_SPLIT_TIMEOUT_MS");
-        return e ? std::atol(e) : 120000L;
+    static const double wall_s = [] {
+        const char* e = std::getenv("VERIF_SPLIT_WALL_S");
+        return e ? std::atof(e) : 120.0;
     }();
-    int fds[2];
-    if (pipe(fds) != 0) return "harness-error:pipe";
-    std::cout.flush();
-    const pid_t pid = fork();
-    if (pid < 0) return "harness-error:fork";
-    if (pid == 0) {
-        close(fds[0]);
-        struct rlimit rl { static_cast<rlim_t>(cpu_s), static_cast<rlim_t>(cpu_s + 1) };
-        setrlimit(RLIMIT_CPU, &rl);
+    auto* job = new SplitJob;           // deliberately leaked when the worker hangs
+    job->secret = secret;
+    job->t = t;
+    job->n = n;
+    job->rng = rng;
+    std::thread worker([job] {
         std::string line;
         try {
-            verif_rng::seed(rng);
-            const auto shares = Shamir::split(secret, t, n);
+            verif_rng::seed(job->rng);
+            const auto shares = Shamir::split(job->secret, job->t, job->n);
             line = "ok " + fmt_shares(shares);
         } catch (const std::exception& ex) {
             line = verif::exception_name(ex);
         }
-        std::size_t off = 0;
-        while (off < line.size()) {
-            const auto w = write(fds[1], line.data() + off, line.size() - off);
-            if (w <= 0) break;
-            off += static_cast<std::size_t>(w);
-        }
-        close(fds[1]);
-        _exit(0);
-    }
-    close(fds[1]);
-    std::string line;
-    bool timed_out = false;
-    long remaining = deadline_ms;
+        std::lock_guard<std::mutex> lock(job->m);
+        job->line = std::move(line);
+        job->done = true;
+        job->cv.notify_all();
+    });
+    clockid_t cid{};
+    const bool have_clock = pthread_getcpuclockid(worker.native_handle(), &cid) == 0;
+    const auto start = std::chrono::steady_clock::now();
+    std::unique_lock<std::mutex> lock(job->m);
     for (;;) {
-        struct pollfd p { fds[0], POLLIN, 0 };
-        const int r = poll(&p, 1, static_cast<int>(remaining > 0 ? remaining : 0));
-        if (r == 0) { timed_out = true; break; }
-        if (r < 0) break;
-        char buf[65536];
-        const auto got = read(fds[0], buf, sizeof buf);
-        if (got <= 0) break;
-        line.append(buf, static_cast<std::size_t>(got));
+        if (job->cv.wait_for(lock, std::chrono::milliseconds(25), [job] { return job->done; })) {
+            lock.unlock();
+            worker.join();
+            std::string line = std::move(job->line);
+            delete job;
+            return line;
+        }
+        double cpu = 0;
+        if (have_clock) {
+            timespec ts{};
+            if (clock_gettime(cid, &ts) == 0) cpu = static_cast<double>(ts.tv_sec) + ts.tv_nsec * 1e-9;
+        }
+        const double wall = std::chrono::duration<double>(std::chrono::steady_clock::now() - start).count();
+        if (cpu > cpu_s || wall > wall_s) {
+            lock.unlock();
+            worker.detach();
+            g_hung = true;
+            return "timeout";
+        }
     }
-    close(fds[0]);
-    if (timed_out) kill(pid, SIGKILL);
-    int status = 0;
-    waitpid(pid, &status, 0);
-    if (timed_out) return "timeout";
-    if (WIFSIGNALED(status) && (WTERMSIG(status) == SIGXCPU || WTERMSIG(status) == SIGKILL) && line.empty()) return "timeout";
-    if (WIFSIGNALED(status)) return "crash:signal" + std::to_string(WTERMSIG(status));
-    if (WIFEXITED(status) && WEXITSTATUS(status) != 0) return "crash:exit" + std::to_string(WEXITSTATUS(status));
-    return line;
 }
 
 std::uint64_t fnv(std::uint64_t h, std::uint8_t b) { return (h ^ b) * 0x100000001b3ull; }
@@ -227,5 +236,40 @@ int main(int argc, char** argv) {
         }
         return "bad-op";
     };
-    return verif::run_lines(argc, argv, h);
+    // same loop as verif::run_lines, plus: resume after `--skip <lines>` and re-execution after a hung split
+    if (argc < 2) { std::fprintf(stderr, "usage: %s <ops-file> [--skip <lines>]\n", argv[0]); return 2; }
+    unsigned long skip = 0;
+    if (argc >= 4 && std::string(argv[2]) == "--skip") skip = std::stoul(argv[3]);
+    std::ifstream in(argv[1]);
+    if (!in) { std::fprintf(stderr, "cannot open %s\n", argv[1]); return 2; }
+    std::ios::sync_with_stdio(false);
+    std::string line;
+    unsigned long lineno = 0;
+    h.reset();
+    while (std::getline(in, line)) {
+        ++lineno;
+        if (lineno <= skip) continue;
+        if (line.rfind("case ", 0) == 0) {
+            h.reset();
+            std::cout << line << "\n" << std::flush;
+            continue;
+        }
+        std::string out;
+        try {
+            out = h.op(verif::split(line), line);
+        } catch (const std::exception& ex) {
+            out = verif::exception_name(ex);
+        }
+        for (auto& c : out) if (c == '\n' || c == '\r') c = '~';
+        std::cout << out << "\n" << std::flush;
+        if (g_hung) {
+            const std::string n = std::to_string(lineno);
+            char* const args[] = {argv[0], argv[1], const_cast<char*>("--skip"), const_cast<char*>(n.c_str()), nullptr};
+            execv("/proc/self/exe", args);
+            std::perror("execv");
+            _exit(3);
+        }
+    }
+    return 0;
+
 }
